@@ -112,6 +112,8 @@ pub struct Incarnation {
     pub system: SharedSystem,
     pub tcp: SocketAddr,
     pub http: Option<SocketAddr>,
+    /// the QUIC listener, started when the scenario's transport is "quic"
+    pub quic: Option<SocketAddr>,
 }
 
 pub fn start(config: Arc<SystemConfig>, scn: &ScnConfig, with_http: bool) -> Result<Incarnation, String> {
@@ -135,7 +137,8 @@ pub fn start(config: Arc<SystemConfig>, scn: &ScnConfig, with_http: bool) -> Res
         max_tokens_per_user: scn.max_tokens_per_user,
         ..PersonalAccessTokenConfig::default()
     };
-    let res: Result<(SharedSystem, SocketAddr, Option<SocketAddr>), String> =
+    let with_quic = scn.transport == "quic";
+    let res: Result<(SharedSystem, SocketAddr, Option<SocketAddr>, Option<SocketAddr>), String> =
         match std::panic::catch_unwind(std::panic::AssertUnwindSafe(|| {
             rt.block_on(async move {
                 let system = SharedSystem::new(System::new(
@@ -165,7 +168,15 @@ pub fn start(config: Arc<SystemConfig>, scn: &ScnConfig, with_http: bool) -> Res
                 } else {
                     None
                 };
-                Ok::<_, String>((system, tcp, http))
+                let quic = if with_quic {
+                    let mut qc = server::configs::quic::QuicConfig::default();
+                    qc.address = "127.0.0.1:0".into();
+                    qc.certificate.self_signed = true;
+                    Some(server::quic::quic_server::start(qc, system.clone()))
+                } else {
+                    None
+                };
+                Ok::<_, String>((system, tcp, http, quic))
             })
         })) {
             Ok(r) => r,
@@ -175,7 +186,7 @@ pub fn start(config: Arc<SystemConfig>, scn: &ScnConfig, with_http: bool) -> Res
         eprintln!("[timing] start {:?}", t0.elapsed());
     }
     match res {
-        Ok((system, tcp, http)) => Ok(Incarnation { rt, system, tcp, http }),
+        Ok((system, tcp, http, quic)) => Ok(Incarnation { rt, system, tcp, http, quic }),
         Err(e) => {
             rt.shutdown_timeout(std::time::Duration::from_millis(200));
             Err(e)
@@ -228,6 +239,20 @@ pub async fn tcp_root(addr: SocketAddr) -> Result<TcpClient, String> {
         .login_user("iggy", "iggy")
         .await
         .map_err(|e| e.to_string())?;
+    Ok(client)
+}
+
+pub async fn quic_root(addr: SocketAddr) -> Result<iggy::quic::client::QuicClient, String> {
+    let mut c = iggy::quic::config::QuicClientConfig::default();
+    c.server_address = addr.to_string();
+    c.client_address = "127.0.0.1:0".into();
+    c.server_name = "localhost".into();
+    c.validate_certificate = false;
+    c.reconnection.enabled = false;
+    c.heartbeat_interval = IggyDuration::new_from_secs(3600);
+    let client = iggy::quic::client::QuicClient::create(Arc::new(c)).map_err(|e| e.to_string())?;
+    Client::connect(&client).await.map_err(|e| e.to_string())?;
+    client.login_user("iggy", "iggy").await.map_err(|e| e.to_string())?;
     Ok(client)
 }
 
